@@ -57,7 +57,8 @@ pub fn generate(out: &mut Out, prop: &str, thorough: bool, seed: u64) {
         }
         "C15" => {
             client::gen_c15(out, &mut rng, thorough);
-            client::gen_c15_stale_wbuf(out, &mut rng, thorough)
+            client::gen_c15_stale_wbuf(out, &mut rng, thorough);
+            client::gen_c15_after_outcome(out, &mut rng, thorough)
         }
         "C16" => {
             client::gen_c16(out, &mut rng, thorough);
@@ -77,7 +78,13 @@ pub fn generate(out: &mut Out, prop: &str, thorough: bool, seed: u64) {
             universal::gen_cli_histories(out, &mut rng, n / 2);
             universal::gen_srv_histories(out, &mut rng, n / 2);
         }
-        "C06" | "C10" | "C12" | "C13" | "C15" | "C16" | "C20" => universal::gen_cli_histories(out, &mut rng, n),
+        "C15" | "C12" | "C20" => {
+            // these monitors read any client history
+            out.monitored = true;
+            universal::gen_cli_histories(out, &mut rng, n);
+            out.monitored = false;
+        }
+        "C06" | "C10" | "C13" | "C16" => universal::gen_cli_histories(out, &mut rng, n),
         "C07" | "C14" => universal::gen_srv_histories(out, &mut rng, n),
         "C03" => {
             // C03's monitor is generic (no panic, termination, bounded buffers): it judges these too
